@@ -3,8 +3,9 @@
 From Coq Require Import List NArith.
 From Coq.Strings Require Import Byte.
 From Coq Require Import Extraction ExtrOcamlBasic.
-From GI Require Import Par.ParWork Par.ParCache Par.ParCacheProofs.
+From GI Require Import Par.ParWork Par.ParCache Par.ParCacheProofs Par.ParWorkMulti.
 Extraction Language OCaml.
 Extraction "extracted/par/model.ml" Byte.of_N Byte.to_N
   step run init_state enabled all_done phi safe_state wakeup_ok
-  cstep crun cinit cenabled all_idle invisible psi kcL.
+  cstep crun cinit cenabled all_idle invisible psi kcL
+  wstep winit wall_done wphi nstep ninit nfinal nphi at_inner_call cfg_init.
